@@ -863,7 +863,7 @@ def line_items(rep, tag, quick, what=("stuff", "mixed")):
     plans = []
     if "stuff" in what:
         # all four sampling phases; the host's bit rate nominal, 0.25 % fast, 0.25 % slow
-        plans += [("line_stuffing", lambda r, k=k: sc_line_stuffing(r, 8, k % 2), dict(phase=k, rate=(0, 25, -25, 0)[k]), k)
+        plans += [("line_stuffing", lambda r, k=k: sc_line_stuffing(r, 8, k % 2), dict(phase=k, rate=(0, 25, -25, 0)[k % 4]), k)
                   for k in range(4 if quick else 8)]
     if "mixed" in what:
         plans += [("line_mixed", lambda r: sc_line_mixed(r, 8), dict(gap=0.5, rate=(25, -25, 0)[k % 3], rx_p=(1.0, 0.5)[k % 2],
